@@ -15,6 +15,7 @@ structure Core where
   V : PVol := {}
   names : AMap.T (Wid × Nat) Addr := []    -- symbolic name of the address at (wallet, index)
   commits : Nat := 1                       -- NewWalletManager of the fresh environment
+  imports : List Wid := []                 -- external wallets prepared by `mkimport`
   deriving Inhabited
 
 def Core.env (c : Core) : Env :=
@@ -127,7 +128,11 @@ def stepCore (c : Core) (args : List String) : Core × String × List Core :=
   -- histories with background work (import / removal): the ledger model does not cover them; their
   -- observations are `rec` ops that only the implementation's twin-vs-crash comparison looks at
   | "rec" :: _ => (c, "ok", [])
-  | ["mkimport", _, _] | ["import", _] | ["importstep", _] | ["remove", _] | ["removerun", _] => (c, "ok", [])
+  | ["mkimport", w, _] =>
+    if c.imports.contains w then (c, "err", []) else ({ c with imports := c.imports ++ [w] }, "ok", [])
+  | ["import", w] => (c, if c.imports.contains w then "ok" else "err", [])
+  | ["importstep", w] | ["remove", w] | ["removerun", w] =>
+    (c, if c.imports.contains w || (AMap.get c.P.ks w).isSome then "ok" else "bad-op", [])
   | "params" :: _ | "tx" :: _ | "block" :: _ | "submit" :: _ | ["detach"] =>
     let (l', out) := Led.step c.led args
     ({ c with led := l' }, out, [])
